@@ -86,6 +86,8 @@ def collect_consts(terms):
 def discharge(ob: Obligation, z3_ms=None):
     """-> (status, backend, seconds, model|None, reason)"""
     z3_ms = z3_ms or Z3_TIMEOUT_MS
+    if getattr(ob, "unsupported", None):
+        return ("unknown", "none", 0.0, None, ob.unsupported)
     if z3.is_true(ob.goal) and not ob.pc:
         return ("unsat", "const", 0.0, None, "")
     s = z3.Solver()
@@ -458,7 +460,16 @@ def run_one_path(ex: Exec, repo, c: Contract, mod, node, case, res: FunctionResu
         res.normal_paths += 1
         fr.locals["result"] = outcome[1]
         for k, clause in enumerate(c.post):
-            ex.oblige(f"post.{k}", ex.spec_bool(clause, fr), clause)
+            try:
+                goal = ex.spec_bool(clause, fr)
+            except Unsupported as u:
+                # this clause cannot be evaluated on this path (e.g. it reads a field the returned object does not have):
+                # undecided for this clause only - the other clauses are still decided
+                ob = Obligation(f"{c.target}/post.{k}", [], z3.BoolVal(True), ex.path_id, clause, ex.case_label)
+                ob.unsupported = f"clause not evaluable on this path: {u}"
+                ex.obligations.append(ob)
+                continue
+            ex.oblige(f"post.{k}", goal, clause)
         for k, clause in enumerate(c.post_internal):
             ex.oblige(f"post.internal.{k}", ex.spec_bool(clause, fr), clause)
         for exc_name, cond in c.raises.items():
